@@ -29,40 +29,87 @@ impl EventParser {
         type_resolver: &mut TypeResolver,
     ) -> Result<Vec<EventInfo>, Box<dyn std::error::Error>> {
         let mut events = Vec::new();
+        self.extract_events_from_items(&ast.items, file_path, type_resolver, &mut events);
+        Ok(events)
+    }
 
-        // Visit all items in the AST looking for emit calls
-        for item in &ast.items {
-            if let syn::Item::Fn(func) = item {
-                // Build symbol table from function parameters
-                let mut symbols = SymbolTable::new();
-                self.extract_param_types(&func.sig.inputs, &mut symbols);
-
-                // A generic type parameter (fn notify<T: Serialize>(.., payload: T)) names no
-                // type of the project: such a payload is `unknown`
-                for type_param in func.sig.generics.type_params() {
-                    let generic = type_param.ident.to_string();
-                    for declared in symbols.values_mut() {
-                        if declared
-                            .split(|c: char| !(c.is_alphanumeric() || c == '_'))
-                            .any(|word| word == generic)
-                        {
-                            *declared = "unknown".to_string();
+    /// Visit the functions among `items` looking for emit calls: free functions, the functions of
+    /// inline modules (`mod commands { .. }`) and the methods of impl blocks
+    fn extract_events_from_items(
+        &self,
+        items: &[syn::Item],
+        file_path: &Path,
+        type_resolver: &mut TypeResolver,
+        events: &mut Vec<EventInfo>,
+    ) {
+        for item in items {
+            match item {
+                syn::Item::Fn(func) => {
+                    self.extract_events_from_fn(
+                        &func.sig,
+                        &func.block,
+                        file_path,
+                        type_resolver,
+                        events,
+                    );
+                }
+                syn::Item::Mod(item_mod) => {
+                    if let Some((_, inner)) = &item_mod.content {
+                        self.extract_events_from_items(inner, file_path, type_resolver, events);
+                    }
+                }
+                syn::Item::Impl(item_impl) => {
+                    for impl_item in &item_impl.items {
+                        if let syn::ImplItem::Fn(method) = impl_item {
+                            self.extract_events_from_fn(
+                                &method.sig,
+                                &method.block,
+                                file_path,
+                                type_resolver,
+                                events,
+                            );
                         }
                     }
                 }
+                _ => {}
+            }
+        }
+    }
 
-                // Search within function bodies with symbol context
-                self.extract_events_from_block(
-                    &func.block.stmts,
-                    file_path,
-                    type_resolver,
-                    &mut events,
-                    &mut symbols,
-                );
+    fn extract_events_from_fn(
+        &self,
+        sig: &syn::Signature,
+        block: &syn::Block,
+        file_path: &Path,
+        type_resolver: &mut TypeResolver,
+        events: &mut Vec<EventInfo>,
+    ) {
+        // Build symbol table from function parameters
+        let mut symbols = SymbolTable::new();
+        self.extract_param_types(&sig.inputs, &mut symbols);
+
+        // A generic type parameter (fn notify<T: Serialize>(.., payload: T)) names no
+        // type of the project: such a payload is `unknown`
+        for type_param in sig.generics.type_params() {
+            let generic = type_param.ident.to_string();
+            for declared in symbols.values_mut() {
+                if declared
+                    .split(|c: char| !(c.is_alphanumeric() || c == '_'))
+                    .any(|word| word == generic)
+                {
+                    *declared = "unknown".to_string();
+                }
             }
         }
 
-        Ok(events)
+        // Search within function bodies with symbol context
+        self.extract_events_from_block(
+            &block.stmts,
+            file_path,
+            type_resolver,
+            events,
+            &mut symbols,
+        );
     }
 
     /// Extract parameter types from function signature into symbol table
